@@ -22,6 +22,7 @@ import (
 	"net/http/httptrace"
 	"net/textproto"
 	"os"
+	"runtime"
 	"sort"
 	"strconv"
 	"strings"
@@ -361,7 +362,29 @@ func (f *c20xFront) play(x *c20xExchange) (o c20xObs, skipped bool) {
 		o.hdr = strings.Join(hs, "\n")
 	}
 	o.dur = time.Since(t0)
-	o.done = <-f.done
+	// the handler's completion is the causal barrier for the log line.  A response implies that the
+	// handler ran; only a request that failed on the client side may never have reached it, and a
+	// retried request may have reached it twice (records of other ids are stale and dropped).
+	guard := time.NewTimer(90 * time.Second)
+	if o.err != nil {
+		guard.Reset(5 * time.Second)
+	}
+	defer guard.Stop()
+wait:
+	for {
+		select {
+		case d := <-f.done:
+			if d.id == x.ID {
+				o.done = d
+				break wait
+			}
+		case <-guard.C:
+			if o.err == nil {
+				o.err = fmt.Errorf("the handler did not report completion of exchange %s", x.ID)
+			}
+			break wait
+		}
+	}
 	f.out.mu.Lock()
 	o.line, o.writes = f.out.b.String(), f.out.n
 	f.out.mu.Unlock()
@@ -581,7 +604,33 @@ func c20xQ(q string) string {
 
 // ---------------------------------------------------------------- driver
 
+// TestVerifC20Exchange runs the exchange part under a watchdog: a run that gets stuck reports where
+// (all goroutine stacks) and ends inconclusive instead of sitting in go test's own timeout.
 func TestVerifC20Exchange(t *testing.T) {
+	finished := make(chan struct{})
+	go func() {
+		defer close(finished)
+		c20xRun(t)
+	}()
+	limit := 240 * time.Second
+	if verifx.Thorough() {
+		limit = 800 * time.Second
+	}
+	select {
+	case <-finished:
+	case <-time.After(limit):
+		buf := make([]byte, 1<<20)
+		n := runtime.Stack(buf, true)
+		stacks := string(buf[:n])
+		if len(stacks) > 12000 {
+			stacks = stacks[:12000]
+		}
+		verifx.Emit(map[string]any{"kind": "error", "msg": fmt.Sprintf("exchange harness stuck for %s; goroutines:\n%s", limit, stacks)})
+		t.Fatalf("exchange harness stuck")
+	}
+}
+
+func c20xRun(t *testing.T) {
 	var exchanges []c20xExchange
 	want := map[string]map[string][]string{} // exchange id -> format -> lines
 	formatSet := map[string]bool{}
